@@ -131,7 +131,7 @@ def build_universe(seed, tier):
     z11 = Adt(byname['KZ11'], [], [])
     kd5z = Adt(byname['KD5'], [Seq('vec', z11)], [])
     for t in (z11, kd5z):
-        t.known = ('C01', 'C02', 'C07', 'C09')
+        t.known = ('C01', 'C02', 'C07', 'C09', 'C12')
     unit1 = Array(Prim('unit'), 1)
     # (the 12^4-tuple itself, as a value type, makes `serialize_zero` of an unoptimized build a 40 MB function with an 8 MB
     # frame — every `max_size_of` of its 20736 leaves is `#[inline(always)]` — so it is used as a marker only)
@@ -261,7 +261,7 @@ def build_universe(seed, tier):
     for t in u.types:
         for x in t.walk():
             if isinstance(x, Adt) and x.d.align_attr > 64 and not x.known:
-                x.known = ('C01', 'C02', 'C07', 'C09') if x.d.align_attr > 128 else ('C01', 'C02', 'C03', 'C04', 'C06', 'C07', 'C09', 'C14', 'C18')
+                x.known = ('C01', 'C02', 'C07', 'C09', 'C12') if x.d.align_attr > 128 else ('C01', 'C02', 'C03', 'C04', 'C06', 'C07', 'C09', 'C12', 'C14', 'C18')
     # generic arguments: phantom data of different types; all instances of one generic definition, pairwise
     ph = [add(Phantom(Prim('u8'))), add(Phantom(Prim('i8'))), add(Phantom(Str())), add(Seq('vec', Phantom(Prim('u8')))), add(Seq('vec', Phantom(Str())))]
     for (a, b) in ((ph[0], ph[1]), (ph[0], ph[2]), (ph[3], ph[4])):
@@ -441,7 +441,7 @@ def schema_canon(ans):
 
 def answers_agree(impl, model):
     """compare one impl answer line with one model answer line"""
-    if impl == model:
+    if impl == model or model == 'ANY':
         return True
     if model.startswith('derive '):
         # the model answers whether its derive of the definition is the registered type; the implementation's
